@@ -1,6 +1,6 @@
 """C24 - Save-dir bundles replay to an identical output.
 
-1. TLC (specs/SaveDir.tla): every argument text of length <= 2 (quick) / <= 3 (thorough) over 22
+1. TLC (specs/SaveDir.tla): every argument text of length <= 2 (quick) / <= 3 (thorough) over 28
    character classes in 7 position kinds (input file name, -o value, -soname=<text>, -soname <text>,
    -L directory, response-file input name, response-file option text).  For each the spec says whether
    the words bash / wild's response-file lexer form from what save_dir.rs writes are the original
@@ -32,14 +32,15 @@ META = {
     "ready": True,
     "level": "exploration",
     "technique": "TLA+ model of bash word formation and of wild's response-file lexer plus a transcription of save_dir.rs quoting, enumerated by TLC over all short argument texts; every enumerated case replayed into the real wild (WILD_SAVE_DIR, then run-with) and the real bash",
-    "level_text": "TLC enumerates every argument text of length <= 2 (quick) / <= 3 (thorough) over 22 character classes (plain, space, tab, newline, quotes, $, backslash, backquote, ; & | ( < * ? # ~ = - @) in 7 position kinds and evaluates RoundTrip = (words formed on replay = original arguments) on a model of bash word formation / wild's response-file lexer; a candidate quoting is model-checked to round-trip all of them. Enumerated cases (all single-character texts, then a seeded random order of the rest, as many as fit the time budget: a few hundred quick, a few thousand thorough) are replayed for real: link with WILD_SAVE_DIR, run run-with with the same binary in another directory, compare sha256. The bash model is pinned against /bin/bash on the same texts.",
-    "level_note": "Exploration over a model-checked quoting model: texts longer than 3 characters, bytes outside the 22 classes (e.g. braces, '!', '>', non-UTF-8) and the save directory's own path are not covered; COLLECT_GCC env propagation and plugins are out of scope. Trusted base: TLC, /bin/bash as the shell the prelude demands, the representative byte per class.",
+    "level_text": "TLC enumerates every argument text of length <= 2 (quick) / <= 3 (thorough) over 28 character classes (plain, space, tab, newline, quotes, $, backslash, backquote, ; & | ( < * ? # ~ = - @, and the characters that are white space for wild's response-file lexer but not for bash: VT, FF, U+0085, U+00A0, U+2003, U+3000) in 7 position kinds and evaluates RoundTrip = (words formed on replay = original arguments) on a model of bash word formation / wild's response-file lexer; a candidate quoting is model-checked to round-trip all of them. Enumerated cases (all single-character texts, then a seeded random order of the rest, as many as fit the time budget: a few hundred quick, a few thousand thorough) are replayed for real: link with WILD_SAVE_DIR, run run-with with the same binary in another directory, compare sha256. The bash model is pinned against /bin/bash on the same texts.",
+    "level_note": "Exploration over a model-checked quoting model: texts longer than 3 characters, bytes outside the 28 classes (e.g. braces, '!', '>', non-UTF-8) and the save directory's own path are not covered; COLLECT_GCC env propagation and plugins are out of scope. Trusted base: TLC, /bin/bash as the shell the prelude demands, the representative byte per class.",
     "engine": "tlc",
 }
 
 BYTE = {"a": "a", "D": "D", "sp": " ", "tab": "\t", "nl": "\n", "sq": "'", "dq": '"', "dol": "$", "bs": "\\",
         "bq": "`", "semi": ";", "amp": "&", "pipe": "|", "lpar": "(", "lt": "<", "star": "*", "qm": "?",
         "hash": "#", "tilde": "~", "eq": "=", "dash": "-", "at": "@",
+        "vt": "\x0b", "ff": "\x0c", "nel": "\u0085", "nbsp": "\u00a0", "emsp": "\u2003", "idsp": "\u3000",
         "w": "w", "z": "z", "L": "L", "h": "h", "d": "d", "O": "O", "U": "U", "T": "T", "o": "o", "slash": "/"}
 GROUP = {"file": "unescaped-path", "libdir": "unescaped-path", "opteq": "unescaped", "optsep": "unescaped",
          "rspfile": "rsp-unescaped", "rspopt": "rsp-unescaped", "out": "out"}
@@ -101,7 +102,8 @@ def pin_bash(rec, d, old=False):
 
 
 def rsp_escape(s):
-    return "".join(("\\" + c) if c in " \t\n'\"\\" else c for c in s)
+    # white space as wild's response-file lexer sees it (char::is_whitespace), quotes, backslash
+    return "".join(("\\" + c) if c in " \t\n\x0b\x0c\r\u0085\u00a0\u2003\u3000'\"\\" else c for c in s)
 
 
 class Seeds:
@@ -434,7 +436,7 @@ def run(ctx):
     cov["evaluations"] = n_real
     cov["distinct_nontrivial"] = sum(1 for i, x, sub, res in results
                                      if res["status"] != "na" and any(t not in ("a", "D") for t in x["text"]))
-    cov["rule"] = ("cases = (position kind, text) enumerated by TLC from SaveDir.tla (all texts up to the length bound over 22 "
+    cov["rule"] = ("cases = (position kind, text) enumerated by TLC from SaveDir.tla (all texts up to the length bound over 28 "
                    "character classes x 7 kinds); evaluated = the original link succeeded and run-with was replayed; "
                    "non-trivial = text contains at least one non-plain class; distinct by (kind, text)")
     cov["traces_validated_against_impl"] = n_real
